@@ -280,6 +280,18 @@ def rule_T2(ctx, rid='T2'):
                        % o['where'] if not ok else
                        'stream opened at %s is closed on every path before the rename'
                        % o['where'])
+        # (h) a temporary file is only published by the function that produced it: the rename
+        # is dominated by a write-mode open of that very temp path (a temp found lying around
+        # is the left-over of an interrupted update and may be a half-updated copy)
+        for r in renames_ok:
+            mine = [o for o in wopens if o['pclass'] == TEMP and o['pkey'] == r['src'][1] and
+                    cfg.dominates(o['node'], r['node'])]
+            ctx.ob(rid, '%s:publishes-own-temp' % q, bool(mine), r['where'],
+                   'the renamed temporary file was written by this function (open at %s)'
+                   % mine[0]['where'] if mine else
+                   'a temporary file this function did not write is moved onto the live path: '
+                   'the left-over of an interrupted update (possibly a half-updated copy) would '
+                   'replace the last complete checkpoint')
         # (e) a temp opened for update must be a whole-file copy of the live file
         for o in wopens:
             if o['pclass'] == TEMP and o['mode'] in ('r+', 'a', 'r+b', 'ab', 'a+', 'rb+'):
@@ -1298,9 +1310,8 @@ def rule_T8ii(ctx, qualname, rid='T8'):
         return bool(ds) and all(cfg.nodes[d].kind == 'stmt' for d in ds)
     ns = [n for n in augs if root_attr(n.ast.target, selfn)[0] == 'n_sample' and
           isinstance(n.ast.value, ast.Name) and _local_count(n)]
-    nr = [n for n in augs if root_attr(n.ast.target, selfn)[0] == 'n_reject' and
-          isinstance(n.ast.value, ast.BinOp)]
-    ctx.require(ns and nr, '%s: local proposal/rejection accounting not found' % qualname)
+    nr = [n for n in augs if root_attr(n.ast.target, selfn)[0] == 'n_reject']
+    ctx.require(ns, '%s: local proposal accounting not found' % qualname)
     for a in ns:
         K = a.ast.value
         # paired rejection update in the same block
@@ -1310,7 +1321,8 @@ def rule_T8ii(ctx, qualname, rid='T8'):
         why = 'no rejection update is paired with the proposal update'
         for r in pair:
             v = r.ast.value
-            if isinstance(v.op, ast.Sub) and ekey(cfg, r.id, v.left) == ekey(cfg, a.id, K) and \
+            if isinstance(v, ast.BinOp) and isinstance(v.op, ast.Sub) and \
+                    ekey(cfg, r.id, v.left) == ekey(cfg, a.id, K) and \
                     isinstance(v.right, ast.Call) and dotted(v.right.func) == 'len' and \
                     isinstance(v.right.args[0], ast.Name):
                 kept = v.right.args[0].id
@@ -1319,7 +1331,9 @@ def rule_T8ii(ctx, qualname, rid='T8'):
                           isinstance(c.ast, ast.Assign) and
                           root_attr(c.ast.targets[0], selfn) and
                           root_attr(c.ast.targets[0], selfn)[0] == 'points' and
-                          any(isinstance(s, ast.Name) and s.id == kept
+                          any(isinstance(s, ast.Name) and s.id == kept and
+                              id(s) not in {id(x.value) for x in ast.walk(c.ast.value)
+                                            if isinstance(x, ast.Subscript)}
                               for s in ast.walk(c.ast.value)) and
                           cfg.guards(c.id) == cfg.guards(a.id)]
                 same = [c for c in caches if cfg.defs_at(c.id, kept) == cfg.defs_at(r.id, kept)]
@@ -1330,6 +1344,29 @@ def rule_T8ii(ctx, qualname, rid='T8'):
                 else:
                     why = ('rejections are computed from `%s` but a different value is stacked '
                            'into the cache' % kept)
+            elif isinstance(v, ast.BinOp) and isinstance(v.op, ast.Sub) and \
+                    ekey(cfg, r.id, v.left) == ekey(cfg, a.id, K) and \
+                    isinstance(v.right, ast.Call) and \
+                    dotted(v.right.func) in ('np.sum', 'np.count_nonzero') and \
+                    len(v.right.args) == 1 and isinstance(v.right.args[0], ast.Name):
+                # K - np.sum(mask) where `p[mask]` is what is stacked into the cache
+                mask = v.right.args[0].id
+                caches = [c for c in cfg.nodes if c.kind == 'stmt' and
+                          isinstance(c.ast, ast.Assign) and
+                          root_attr(c.ast.targets[0], selfn) and
+                          root_attr(c.ast.targets[0], selfn)[0] == 'points' and
+                          any(isinstance(s, ast.Subscript) and isinstance(s.slice, ast.Name)
+                              and s.slice.id == mask for s in ast.walk(c.ast.value)) and
+                          cfg.guards(c.id) == cfg.guards(a.id) and
+                          cfg.defs_at(c.id, mask) == cfg.defs_at(r.id, mask)]
+                if caches:
+                    ok = True
+                    why = ('+= %s proposals, += %s - (number of rows selected by `%s`) '
+                           'rejections, and the rows selected by `%s` are what is stacked into '
+                           'the cache' % (unparse(K), unparse(K), mask, mask))
+                else:
+                    why = ('rejections are computed from the mask `%s` but the cache is not '
+                           'extended by the rows it selects' % mask)
             else:
                 why = 'rejection update `%s` is not K - len(kept) for the K added to n_sample' \
                     % unparse(v)
